@@ -520,6 +520,12 @@ impl<'a> Gen<'a> {
     }
 
     fn from_of(&mut self, t: &Rel, aliased: &Rel) -> From_ {
+        // a base table may be named with its schema: SQLite's own `main` (so that the statement still runs),
+        // any name elsewhere
+        if self.cfg.dialect.is_some() && base_tables().iter().any(|b| b.name == t.name) && self.rng.chance(1, 8) {
+            let schema = if self.cfg.sqlite_like() { "main" } else { "sch" };
+            return From_::SchemaTable(schema.into(), t.name.clone(), Some(aliased.name.clone()));
+        }
         From_::Table(t.name.clone(), Some(aliased.name.clone()))
     }
 
